@@ -265,8 +265,10 @@ def one_triple(ctx, name, Vc, Mc, Nc, rng):
     rd = gen.rng_for("c11-degenerate", name, sv[:24], len(sv))
     if rd.random() < 0.25:
         try:
-            sv = sv + sitefree(rd, 9, [enz, nenz]) + rd.choice("RYKMSWBDHVNrn") + sitefree(rd, 9, [enz, nenz])
-            if all(nsites(sv.upper(), e) == 2 for e in {enz, nenz}) or name == "ytk-entry":
+            cand = sv + sitefree(rd, 9, [enz, nenz]) + rd.choice("RYKMSWBDHVNrn") + sitefree(rd, 9, [enz, nenz])
+            # (the junction with the old end of the plasmid must not bring a site to life)
+            if all(nsites(cand.upper(), e) == nsites(sv.upper(), e) for e in {enz, nenz}):
+                sv = cand
                 ctx.count("c11_vectors_with_degenerate_base")
         except RuntimeError:
             pass
